@@ -106,6 +106,48 @@ def w_variational_long(case, led):
                           {"vmethod": "2site", "start": "poor"}, rep)
 
 
+def w_variational_wide_operator(case, led):
+    """default start (guess=None: the routine compresses copies of operator and state to `vguess_m`) with an operator whose bonds exceed that start size: the
+    result converges to the product, and neither the operator nor the state handed in is touched"""
+    _, n, seed, tier = case
+    from renormalizer.mps import Mpo
+    from renormalizer.utils import CompressCriteria, CompressConfig
+    rng = np.random.default_rng([seed, n, 415])
+    model, _terms, sectors = Dn.hamiltonian("spinqn", n, rng)
+    terms = U.random_terms(model, rng, 14, max_sites=3)
+    if not terms:
+        return
+    H = Mpo(model, terms)
+    Hd, Hb = S.dense(H).copy(), list(H.bond_dims)
+    for q in (sectors[len(sectors) // 2],):
+        b = U.make_state(model, q, 4, rng, complex_=bool(seed % 2))
+        if b is None or np.linalg.norm(Hd @ S.dense(b)) < 1e-8:
+            continue
+        bd = S.dense(b).copy()
+        ref = Hd @ bd
+        for vmethod in ("2site", "1site"):
+            b2 = b.copy()
+            b2.compress_config = CompressConfig(CompressCriteria.fixed, max_bonddim=64, vmethod=vmethod)
+            key = ("spinqn", n, seed, str(q), "variational-wide-operator", vmethod)
+            rep = {"model": "spinqn", "nsites": n, "sector": q, "vmethod": vmethod, "seed": seed, "operator_bonds": Hb, "vguess_m": list(b2.compress_config.vguess_m),
+                   "terms": [repr(t) for t in terms]}
+            vf_ = {"vmethod": vmethod, "start": "default", "operator_wider_than_start": bool(max(Hb) > b2.compress_config.vguess_m[0])}
+            try:
+                r = b2.variational_compress(H)
+            except Exception as e:
+                led.check(False, "post:MatrixProduct.variational_compress:total", "MatrixProduct.variational_compress", f"raised {type(e).__name__}: {e}", key, vf_, rep)
+                continue
+            err = np.linalg.norm(S.dense(r) - ref) / np.linalg.norm(ref)
+            if vmethod == "2site":
+                led.check(err <= 10 * b2.compress_config.vrtol, "post:MatrixProduct.variational_compress:converges_to_product", "MatrixProduct.variational_compress",
+                          f"relative error {err:.2e} > 10*vrtol with operator bonds {Hb}", key, vf_, rep)
+            led.check(np.abs(S.dense(H) - Hd).max() <= 1e-12 * max(1.0, np.abs(Hd).max()) and list(H.bond_dims) == Hb, "frame:MatrixProduct.variational_compress:operator",
+                      "MatrixProduct.variational_compress", f"the operator handed in changed by {np.abs(S.dense(H) - Hd).max():.2e}, its bonds went {Hb} -> {list(H.bond_dims)}",
+                      key + ("frame-op",), vf_, rep)
+            led.check(np.abs(S.dense(b2) - bd).max() <= 1e-12, "frame:MatrixProduct.variational_compress:input", "MatrixProduct.variational_compress", "input state changed",
+                      key + ("frame",), vf_, rep)
+
+
 def worker(case, led):
     name, n, seed, tier = case
     rng = np.random.default_rng([seed, n, 404, sum(map(ord, name))])
@@ -333,6 +375,7 @@ def check(run):
              if not (name == "multi" and n < 2)]
     run_cases(run, worker, cases)
     run_cases(run, w_variational_long, [("vlong", 8, s, run.tier) for s in seeds] + ([("vlong", 7, s, run.tier) for s in seeds] if run.tier != "quick" else []))
+    run_cases(run, w_variational_wide_operator, [("vwide", 7, s, run.tier) for s in seeds] + ([("vwide", 8, s, run.tier) for s in seeds] if run.tier != "quick" else []))
     run.rule = ("states reachable by arithmetic {random, sums with redundant / rank-deficient bonds, H@a, product state, MPOs and MPO sums} x 1..4(5) sites "
                 "x both sweep directions x {full sweep, two sweeps, idempotence, every stop site incl. the current centre, lossless compress, "
                 "ensure_left/right from every centre, variational compression}; distinct = (model,size,state,direction,clause)")
